@@ -86,15 +86,16 @@ PROPS = {
         unreached=["the spawned thread actually running Receiver::run (thread::Builder::spawn_scoped stand-in)", "what entry.boxed() reports (BoxEntry bridge: C15)"],
     ),
     "C05": dict(
-        verus=[("bgq", {}, ["shut_down", "flush_stream", "drain_until_deadline", "consume", "drop", "forget"]), ("bgq_run", {}), ("bgq_build", {})],
+        verus=[("bgq", {}, ["shut_down", "flush_stream", "drain_until_deadline", "consume", "drop", "forget"]), ("bgq_run", {}), ("bgq_build", {}),
+               ("globalguards", {}, ["AttachHandle::drop", "AttachHandle::new", "AttachHandle::forget"])],
         technique="Verus function contracts / anchored assertions on the extracted real Receiver::shut_down, flush_stream, BackgroundQueueJoinHandle::drop and forget",
         level_text="Deductive proof (Verus/z3) of the shutdown order: shut_down drains (every popped entry consumed), then flushes exactly once, then closes the stream with that flush as the last thing it saw; "
-                   "dropping a live join handle stores the signal, then unparks, then joins; a forgotten handle does none of it. Thread termination and the forget path of run() are not reached.",
+                   "dropping a live join handle stores the signal, then unparks, then joins; a forgotten handle does none of it. Thread termination and the forget path of run() are not reached. An AttachHandle runs its detach-and-join function exactly when it is dropped while still holding one; a forgotten handle holds none.",
         level_note="Trusted: as C01, plus std thread::JoinHandle::join, AtomicBool::store, and that Receiver::run calls shut_down when it sees the signal (read, not proved). "
                    "The clause 'after forget the thread exits once the last queue handle is dropped' is NOT decided here.",
         explanation="shutdown order of the background queue",
         assumptions=["Drop runs exactly once"],
-        unreached=["whether Arc::get_mut can ever succeed after forget() (run keeps its own clone: read, not decided)", "the detach function a global sink stores in its AttachHandle (that it drops the join handle; AttachHandle::drop itself: unit globalguards)", "entries appended after shutdown are discarded"],
+        unreached=["whether Arc::get_mut can ever succeed after forget() (run keeps its own clone: read, not decided)", "what the detach function a global sink stores in its AttachHandle does (SINK.write().take(): dropping the stored join handle)", "entries appended after shutdown are discarded"],
     ),
     "C09": dict(
         verus=[("bgq", {}, ["push", "BackgroundQueue::append"]), ("bgq_build", {})],
